@@ -2,7 +2,7 @@
 import itertools
 import random
 
-from harness import common, core, vers
+from harness import common, core, dense, vers
 
 OPS7 = vers.OPS + ["*"]
 
@@ -139,13 +139,16 @@ def run(ctx):
     for (sn, b, p), o in probe_reqs.items():
         if m2[f"contains {b} {p}"] != o:
             diffs.append(dict(scheme=sn, what="membership on validated list", constraints=b, probe=p, model=m2[f"contains {b} {p}"], impl=o))
+    # ---- the same statement on dense families of versions (one edit apart, equal under another spelling): harness/dense.py
+    dense_ev, dense_per = dense.run(ctx, "C07", r, lambda what, **kw: violations.append(dict(kind="counterexample", stage="search", what=what, **kw)))
+    evals += dense_ev
     if not violations and (diffs or not proofs["ok"]):
         what = ("theorems of Props/C07.v no longer check: " + str(proofs.get("error"))[-400:]) if not proofs["ok"] else \
             ("model and implementation differ: " + str(diffs[0]))
         violations.append(dict(kind="no-failing-input-found", stage="proof" if not proofs["ok"] else "correspondence",
                                theorem_or_stream="Props/C07.v" if not proofs["ok"] else "VersionConstraint.validate vs Model.validate",
                                what=what, diffs=diffs[:10]))
-    cov = dict(evaluations=evals, distinct_nontrivial=len(nontrivial),
+    cov = dict(evaluations=evals, dense_pairs=dense_per, distinct_nontrivial=len(nontrivial),
                rule=f"all 7^n comparator sequences (with '*') x all position assignments (permutations and duplicated versions) for n<=3 ({n_full} lists), "
                     f"all 7^n sequences in version order plus shuffled copies for 4<=n<={N}, random longer shuffled lists with mutations and duplicates; "
                     f"on {len(schemes)} schemes (duplicated versions use a different spelling where the scheme has one); accepted lists are then probed for membership "
